@@ -119,7 +119,9 @@ def run_job(job):
                     bad = ("noquiesce", {})
                 if bad is None:
                     j = P.judge(w)
-                    if mode == "intact":
+                    if j["busy"] and not base.get("busy"):
+                        bad = ("busy", {"pending": j["busy"]})
+                    elif mode == "intact":
                         if not j["converged"]:
                             bad = ("diverge", j["trees"])
                         elif j["lost"]:
